@@ -106,13 +106,25 @@ def grid_case(case):
     grid = case['grid']
     g = {'list': list(grid), 'tuple': tuple(grid), 'array': np.array(grid, float)}[case.get('grid_type', 'array')]
     nS, nE = len(spec['states']), len(spec['events'])
+    runs = case.get('runs', 3)
     np.random.seed(case['seed'])
     with native.quiet():
-        Xg, Jg, Tg = m.solve_stochast(g, 1, exact=True, full_output=True)
+        XG, JG, Tg = m.solve_stochast(g, runs, exact=True, full_output=True)
     np.random.seed(case['seed'])
     with native.quiet():
-        Xr, Jr, Tr = m.solve_stochast(float(grid[-1]), 1, exact=True, full_output=True)
-    Xg, Jg, Xr, Jr, Tr = (np.asarray(a[0], float) for a in (Xg, Jg, Xr, Jr, Tr))
+        XR, JR, TR = m.solve_stochast(float(grid[-1]), runs, exact=True, full_output=True)
+    bad, total = [], 0
+    if len(XG) != runs or len(JG) != runs:
+        return ["%d gridded runs returned for %d requested" % (len(XG), runs)], 0
+    for r in range(runs):
+        b, n_ = _grid_one(m, spec, x0, grid, nS, nE, np.asarray(XG[r], float), np.asarray(JG[r], float),
+                          np.asarray(XR[r], float), np.asarray(JR[r], float), np.asarray(TR[r], float))
+        bad += ["run %d: %s" % (r, x) for x in b]
+        total += n_
+    return bad, total
+
+
+def _grid_one(m, spec, x0, grid, nS, nE, Xg, Jg, Xr, Jr, Tr):
     bad = []
     if Xg.shape != (len(grid), nS):
         return ["gridded states have shape %s, expected %s" % (Xg.shape, (len(grid), nS))], 0
@@ -150,7 +162,7 @@ def corpus(seed, n, closed=False):
         spec, x0, lims, theta = make(rng, transition_only=closed, n_states=nS_, n_events=shape[1])
         for exact, pre_tau in ((True, None), (False, None), (False, 0.05)):
             out.append(dict(spec=spec, x0=x0.tolist(), lims=lims, theta=theta.tolist(), exact=exact, pre_tau=pre_tau,
-                            horizon=float(rng.uniform(0.5, 3.0)), seed=int(rng.randint(1, 2 ** 31 - 1)), closed=closed, runs=2))
+                            horizon=float(rng.uniform(0.5, 3.0) if closed else rng.uniform(0.3, 1.0)), seed=int(rng.randint(1, 2 ** 31 - 1)), closed=closed, runs=2))
     return out
 
 
@@ -159,8 +171,12 @@ def grid_corpus(seed, n):
     out = []
     for k in range(n):
         shape = [(None, None), (1, None), (None, 1), (2, 2)][k % 4]
-        spec, x0, lims, theta = make(rng, n_states=shape[0], n_events=shape[1], limits=('none' if k % 2 else 'mixed'))
-        horizon = float(rng.uniform(1.0, 4.0)) * (5 if k % 3 == 0 else 1)     # every third grid runs far past extinction
+        long_grid = (k % 3 == 0)            # every third grid runs far past extinction / the stop at a limit
+        spec, x0, lims, theta = make(rng, n_states=shape[0], n_events=shape[1], limits=('none' if (k % 2 and not long_grid) else 'mixed'))
+        if long_grid:
+            # births can grow without bound: every state gets an upper limit, so that the path stops instead of exploding
+            lims = [(0, float(v + rng.randint(5, 40))) for v in x0]
+        horizon = float(rng.uniform(1.0, 4.0)) * (5 if long_grid else 0.4)
         grid = np.concatenate([[0.0], np.sort(rng.uniform(0.01, horizon, size=int(rng.randint(2, 9))))])
         out.append(dict(spec=spec, x0=x0.tolist(), lims=lims, theta=theta.tolist(), grid=[float(v) for v in grid],
                         grid_type=('array', 'list', 'tuple')[k % 3], seed=int(rng.randint(1, 2 ** 31 - 1))))
